@@ -85,7 +85,7 @@ def make_overlay(scratch, variant):
             args += ["-n", variant.split("-")[1]]
         r = subprocess.run(args, env=goenv(), capture_output=True, text=True)
         if r.returncode != 0:
-            raise BuildFailure("instrument %s: %s%s" % (variant, r.stdout, r.stderr))
+            raise InstrumentFailure("instrument %s: %s%s" % (variant, r.stdout, r.stderr))
         info = json.loads(r.stdout)
         for orig, new in info.get("replace", {}).items():
             repl[orig] = new
@@ -98,6 +98,10 @@ def make_overlay(scratch, variant):
 
 class BuildFailure(Exception):
     pass
+
+
+class InstrumentFailure(BuildFailure):
+    """The derived build (smallbuf / mapchoice) could not be produced from this tree."""
 
 
 def files_defining(tests):
@@ -133,6 +137,8 @@ def build_test(scratch, pkgdir, variant, race=False, tests=()):
         import re
         bad = set(m for m in re.findall(r"(/[^\s:]*/src/inj/[^\s:]+\.go):\d+", r.stdout + r.stderr))
         removable = [b for b in bad if b not in keep]
+        if _attempt == 0:
+            log("note: first build attempt failed:\n" + "\n".join((r.stdout + r.stderr).splitlines()[:6]))
         if not removable:
             raise BuildFailure("go test -c %s (%s): %s%s" % (pkgdir, variant, r.stdout, r.stderr))
         with open(ov) as f:
@@ -187,12 +193,22 @@ def run_parts(prop, tier, scratch, parts, known, replay=None):
     for part in parts:
         k = (part["pkg"], part.get("variant", "plain"), bool(part.get("race")))
         tests_by_key.setdefault(k, set()).add(part["test"])
+    skipped = set()
     for part in parts:
         k = (part["pkg"], part.get("variant", "plain"), bool(part.get("race")))
-        if k not in bins:
-            b, notes = build_test(scratch, k[0], k[1], k[2], tests_by_key[k])
+        if k not in bins and k not in skipped:
+            try:
+                b, notes = build_test(scratch, k[0], k[1], k[2], tests_by_key[k])
+            except InstrumentFailure as e:
+                # the tree no longer has the pattern the instrumentation rewrites: that
+                # variant is skipped (stated in the evidence), the other parts still run
+                skipped.add(k)
+                build_notes.append("variant %s skipped: %s" % (k[1], str(e).strip()[:200]))
+                log("note: variant %s skipped: %s" % (k[1], str(e).strip()[:300]))
+                continue
             bins[k] = b
             build_notes += notes
+    parts = [p for p in parts if (p["pkg"], p.get("variant", "plain"), bool(p.get("race"))) in bins]
     procs = []
     t_start = time.time()
     for part in parts:
